@@ -293,9 +293,24 @@ static void *dequeue(thread_pool_t *interface)
 			if (out != NULL)
 				break;
 
+			/*
+			 * Once the error status is set, the workers no longer
+			 * take items from the queue. If the item we are waiting
+			 * for is still queued, it will never be completed, so
+			 * give up instead of blocking forever.
+			 */
+			if (pool->status != 0 && pool->queue != NULL &&
+			    pool->queue->ticket_number ==
+			    pool->next_dequeue_ticket) {
+				break;
+			}
+
 			pthread_cond_wait(&pool->done_cond, &pool->mtx);
 		}
 		pthread_mutex_unlock(&pool->mtx);
+
+		if (out == NULL)
+			return NULL;
 	}
 
 	ptr = out->data;
